@@ -103,6 +103,6 @@ ThEnds(p) == /\ Line(p, 0) = 1 /\ Col(p, 0) = 1
              /\ Col(p, Len(p)) = Len(LineText(p, NumLines(p))) + 1
 \* the documented format satisfies the format-independent reading, for the right (line, col) only
 ThFormat(p) == \A i \in 0..Len(p) :
-    /\ Shows(p, Context(p, i), Line(p, i), Col(p, i))
-    /\ \A j \in 0..Len(p) : j # i => ~Shows(p, Context(p, i), Line(p, j), Col(p, j))
+    LET ctx == Context(p, i)
+    IN \A j \in 0..Len(p) : Shows(p, ctx, Line(p, j), Col(p, j)) <=> (j = i)
 =============================================================================
